@@ -294,7 +294,9 @@ def judge_batch(job):
                     for vi, v in enumerate(vals):
                         le, spans = ref.encode(top, v, '<')
                         be, _ = ref.encode(top, v, '>')
-                        if pyjudge.unaligned_greedy_tail(ref, top, spans):
+                        if pyjudge.unaligned_greedy_tail(ref, top, spans) and set(props) != set(['C05']):
+                            # (the documented greedy exception concerns decode round trips; size agreement of
+                            # whatever was decoded is judged for C05 all the same)
                             out['excluded_greedy'] += 1
                             continue
                         cid = '%d.%d' % (si, vi)
@@ -455,8 +457,20 @@ def replay(art, pid):
             cases.append(('0.0.%s' % ename, top, ename, 'dec', canon[e]))
             for op in ops:
                 cases.append(('0.0.%s.%s' % (ename, op), top, ename, op, canon[e]))
+        pybytes = None
+        if 'Python' in art.get('detail', '') and art.get('expected'):
+            # the case fed what the Python codec wrote: decode exactly those bytes
+            pybytes = bytes.fromhex(art['expected'])
+            en = art['endian'] if art['endian'] in ('little', 'big') else 'little'
+            cases.append(('py', top, en, 'dec', pybytes))
         results = D.run_driver(exe, cases)
         found = []
+        if pybytes is not None:
+            r = results.get('py') or {}
+            if r.get('ok') != '1':
+                found.append(('rejects-python-bytes', 'C++ does not accept %s' % pybytes.hex()))
+            elif r.get('vhex') is not None and bytes.fromhex(r['vhex'] if r['vhex'] != '-' else '') != pybytes:
+                found.append(('reencodes-python-bytes-differently', r['vhex']))
 
         def viol(p, key, a):
             if p == pid:
